@@ -48,6 +48,8 @@ structure Sys (S K σ P : Type) where
   cast : Rat → K
   start : Rat
   dt : Rat
+  /-- number of systems in the mean-field system -/
+  nsys : Nat
 
 section
 variable {S K σ P : Type} [Add K] [Sub K] [Mul K] [Div K] [OfNat K 2]
@@ -130,12 +132,15 @@ def cdwfComputeField (M : Sys S K σ P) (t dtArg : Rat) (sl : S) (fl : K) (nsl :
   (cdwf_cf_result fl dtK rk1 rk2, [c1, c2])
 
 /-- "propagate one time step" of iteration `k`: derivative of the field at the current states,
-    propagators, PT-MPOs.  `prev` is the value `previous_state_list` had when the iteration began. -/
+    propagators, PT-MPOs.  `prev` is the value `previous_state_list` had when the iteration began.
+    (The derivative is evaluated `cdwf_fd_evals nsys` times: the call sits inside the
+    comprehension over the systems' propagators.) -/
 def cdwfProp (M : Sys S K σ P) (k : Int) (net : σ) (prev cur : S) (fl : K) :
     σ × List (Call S K) :=
   let c : Call S K := ⟨cdwf_fd_time M.start M.dt k, cdwf_fd_states prev cur, fl⟩
   let d := c.eval M
-  (M.netPT (cdwf_mpo_step k) (M.props (cdwf_prop_step k) fl d) net, [c])
+  (M.netPT (cdwf_mpo_step k) (M.props (cdwf_prop_step k) fl d) net,
+    List.replicate (cdwf_fd_evals M.nsys) c)
 
 /-- iteration `step = 0`: `field = initial_field` -/
 def cdwfHead (M : Sys S K σ P) (σ0 : σ) (a0 : K) : LoopSt S K σ × (S × K) × List (Call S K) :=
